@@ -3,7 +3,55 @@ package main
 import (
 	"encoding/hex"
 	"math/rand/v2"
+
+	"github.com/gotd/td/bin"
 )
+
+// dirtyBuf hands out REUSED bin.Buffers: the backing array is pre-filled with
+// non-zero bytes, the buffer is Reset() (length 0, ample spare capacity), as
+// happens with pooled / recycled buffers in the client. An encoder that extends
+// the slice into spare capacity instead of appending zero bytes leaves stale
+// bytes in the output; with a fresh buffer that is invisible.
+type dirtyBuf struct {
+	scratch []byte
+	pool    *bin.Pool
+	// PoolReused counts pool.Get calls that returned the dirty buffer just Put.
+	PoolReused, PoolGets int
+}
+
+func (d *dirtyBuf) fill(need int) []byte {
+	n := need + 64
+	if cap(d.scratch) < n {
+		d.scratch = make([]byte, n+n/4)
+	}
+	s := d.scratch[:n]
+	for i := range s {
+		s[i] = byte(i*31+0xA7) | 1 // never zero
+	}
+	return s
+}
+
+// reset returns a dirty buffer with capacity for need bytes, after Reset().
+func (d *dirtyBuf) reset(need int) *bin.Buffer {
+	b := &bin.Buffer{Buf: d.fill(need)}
+	b.Reset()
+	return b
+}
+
+// pooled puts a dirty buffer into a bin.Pool and takes one out again.
+func (d *dirtyBuf) pooled(need int) *bin.Buffer {
+	if d.pool == nil {
+		d.pool = bin.NewPool(0)
+	}
+	in := &bin.Buffer{Buf: d.fill(need)}
+	d.pool.Put(in)
+	out := d.pool.Get()
+	d.PoolGets++
+	if out == in {
+		d.PoolReused++
+	}
+	return out
+}
 
 func randBytes(r *rand.Rand, n int) []byte {
 	b := make([]byte, n)
